@@ -140,7 +140,7 @@ PROPS["C20"]["timeout"] = {"quick": 300, "thorough": 1200}
 
 PROPS["C10"] = {
     "props_files": ["Props/C10.v"],
-    "go_tests": ["TestVerifClose", "TestVerifCloseOverlap"],
+    "go_tests": ["TestVerifClose", "TestVerifCloseOverlap", "TestVerifParkedWritersHoldNoLock"],
     "go_tests_root": ["TestVerifRootClose"],
     "level": "proof",
     "rule": "scenario runs on the real code: 200..1450 goroutines (Set/Delete/loading Get/Wait), more in-flight writes than the write queue holds with "
@@ -148,11 +148,12 @@ PROPS["C10"] = {
             "census (runtime.Stack) ; plus all four public cache kinds through the builders; a trial is non-trivial by construction; "
             "plus overlapping Close calls while other callers hold shard write locks (as a loader does), stepped against Model/CloseFine.v: after every "
             "hold / release / new Close call the harness waits until every Close call is parked in sync.RWMutex.Lock or has returned (goroutine states), "
-            "then compares every shard's closed flag, the store flag and who has returned, and probes every reachable shard once any Close has returned",
+            "then compares every shard's closed flag, the store flag and who has returned, and probes every reachable shard once any Close has returned; "
+            "plus the assumption of the blocking-point model that a writer parks on the write queue holding no lock: nine kinds of calls that queue a policy event are started on a full, undrained queue and, once parked in Store.send, every shard lock and the policy lock must be free (TryLock)",
     "trusted_base": [KERNEL, HARNESS, "modelled, not verified: Go select/channel/context semantics (a select with a ready ctx.Done case never blocks); "
                      "goroutine scheduling fairness (a runnable goroutine eventually runs); wall-clock timeouts of 3-10 s in the scenario runs decide 'returned'"],
     "assumptions": ["the Go scheduler is fair", "a call that has not returned 10 s after Close counts as blocked forever (search direction only)"],
-    "impl_only_traces": ["close", "rootclose"],
+    "impl_only_traces": ["close", "rootclose", "parkedwriters"],
     "explanation": "blocking-point model: after the context is cancelled every blocked process has an enabled finishing step; store model is inert after Close; "
                    "the real code is exercised with calls racing Close and a goroutine census",
     "timeout": {"quick": 600, "thorough": 1500},
